@@ -14,6 +14,9 @@ Section Reach.
   Lemma reach_inv : sess_inv (w_st w).
   Proof. apply LiveHist8.reach_sess_inv; assumption. Qed.
 
+  Theorem handler_inv_hist r pre s o : handler_at w r pre s o -> sess_inv s /\ exists ob, hget s o = Some ob.
+  Proof. apply handler_at_inv. exact reach_inv. Qed.
+
   Theorem login_hist r pre s o u ex : handler_at w r pre s o ->
     exists ob s' n ob', hget s o = Some ob /\
       login s o u ex = (s', Ok tt, [CkLive (KGen n)]) /\ sess_inv s' /\
@@ -81,6 +84,13 @@ Section Reach.
   Qed.
 End Reach.
 
+Lemma handler_at_meaning w r pre s o :
+  handler_at w r pre s o <->
+  exists s2 cks rs cks',
+    start (req_s1 w r) (req_q w r) = (s2, Ok (Some o), cks) /\
+    run_script (fire_due s2) o (had_cookie (req_q w r)) pre = (s, rs, cks') /\ ran pre rs = true.
+Proof. reflexivity. Qed.
+
 (* ------------------------------------------------------------- example *)
 
 (* two browsers of user 5; the second logs in exclusively after setting a
@@ -100,7 +110,7 @@ Proof. do 4 eexists. split; [vm_compute; reflexivity|]. split; vm_compute; refle
 
 Example login_survives_ex :
   let w1 := fst (step wU (HReq rU)) in let w2 := fst (step w1 HDropCache) in
-  supply sU = 3%N /\ listed sU 5 = [KGen 0; KGen 1] /\
+  supply sU = 3%N /\ listed sU 5 = [KGen 1] /\
   ob_script (snd (step wU (HReq rU))) = [SOk; SOk] /\
   option_map r_user (L (w_st w2) (KGen 3)) = Some (Some (5%N, 0%N)) /\
   option_map r_user (L (w_st w2) (KGen 1)) = Some None /\
